@@ -126,6 +126,19 @@ static void do_op(Toks& tk) {
   else if (op == "add_congruences") x.add_congruences(read_cgs(tk, dim));
   else if (op == "refine_with_congruences") x.refine_with_congruences(read_cgs(tk, dim));
   else if (op == "intersection_assign") x.intersection_assign(*get(tk.nextl()));
+  else if (op == "add_generators_from") {
+    // generator OBJECTS of another polyhedron (they carry that polyhedron's topology), points first
+    Polyhedron* yc = clone(*get(tk.nextl()));
+    Generator_System gs = yc->generators();
+    const bool closed = (x.topology() == NECESSARILY_CLOSED);
+    for (int pass = 0; pass < 2; ++pass)
+      for (Generator_System::const_iterator i = gs.begin(); i != gs.end(); ++i) {
+        if ((pass == 0) != i->is_point()) continue;
+        if (closed && i->is_closure_point()) continue;
+        x.add_generator(*i);
+      }
+    delete yc;
+  }
   else if (op == "poly_hull_assign") x.poly_hull_assign(*get(tk.nextl()));
   else if (op == "upper_bound_assign") x.upper_bound_assign(*get(tk.nextl()));
   else if (op == "poly_difference_assign" || op == "difference_assign") {
